@@ -84,6 +84,8 @@ pub struct NetCore {
     pub max_delivered: BTreeMap<(usize, usize), u64>,
     /// nonces of SyncRequests sent per link, in order
     pub sync_requests: BTreeMap<(usize, usize), Vec<u32>>,
+    /// detailed event log (only with VERIF_LOG set; never influences a run)
+    pub log: Option<Vec<String>>,
 }
 
 const D_JIT: u64 = dom("pkt.jitter");
@@ -118,6 +120,7 @@ impl NetCore {
             recv_scratch: vec![Vec::new(); n],
             max_delivered: BTreeMap::new(),
             sync_requests: BTreeMap::new(),
+            log: std::env::var("VERIF_LOG").ok().map(|_| Vec::new()),
         }
     }
 
@@ -135,6 +138,15 @@ impl NetCore {
         };
         self.counters.sent += 1;
         self.counters.sent_by_kind[kind as usize] += 1;
+        if let Some(l) = &mut self.log {
+            let detail = match &mm {
+                Some(MMsg { body: MBody::Input(i), .. }) => format!("start {} ack {} bytes {}", i.start_frame, i.ack_frame, i.bytes.len()),
+                Some(MMsg { body: MBody::InputAck { ack_frame }, .. }) => format!("ack {ack_frame}"),
+                Some(MMsg { body: MBody::ChecksumReport { frame, .. }, .. }) => format!("frame {frame}"),
+                _ => String::new(),
+            };
+            l.push(format!("t={} send {from}->{to} #{n} {} {detail}", self.now_us, KIND_NAMES[kind as usize]));
+        }
         if let Some(m) = &mm {
             self.last_magic.insert((from, to), m.magic);
             match &m.body {
@@ -245,6 +257,9 @@ impl NetCore {
     pub fn deliver(&mut self, s: Scheduled) {
         if self.dead[s.to] {
             return;
+        }
+        if let Some(l) = &mut self.log {
+            l.push(format!("t={} deliver {}->{} #{} {}", s.at_us, s.from, s.to, s.seq / 4, KIND_NAMES[s.kind as usize]));
         }
         self.sched.add_all(&[0, (s.from * 64 + s.to) as u64, s.kind as u64]);
         self.trace.add_all(&[s.at_us, (s.from * 64 + s.to) as u64, s.seq, s.kind as u64]);
